@@ -1,6 +1,7 @@
 package coll
 
 import (
+	"fmt"
 	"reflect"
 	"sort"
 	"strings"
@@ -49,6 +50,11 @@ type Dict struct {
 }
 
 func NewDict(d *Desc) *Dict { return &Dict{D: d, Unjudged: map[string]bool{}} }
+
+// Key is a canonical rendering of the model state.
+func (m *Dict) Key() string {
+	return m.seq("{", "}", func(e mentry) string { return e.ks + "=" + FmtVal(e.v) }) + fmt.Sprintf("/max=%d/none=%s", m.Max, m.NoneVal)
+}
 
 func (m *Dict) isSet() bool { return m.D.ValT == nil }
 
